@@ -13,7 +13,9 @@ import (
 	"errors"
 	"io"
 	"math/rand"
+	goruntime "runtime"
 	"strings"
+	"sync"
 
 	"github.com/go-openapi/runtime"
 
@@ -387,6 +389,31 @@ func generate(c *drv.Ctx) {
 		}
 	}
 	c.Extra["reuse_cases"] = nReuse
+	// stress families: an io.WriterTo source whose malformed input stops the parser while a Write is still
+	// pending, repeated many thousand times from several goroutines under several GOMAXPROCS settings; the two
+	// goroutines of the WriterTo branch race for the error that is returned. One aggregated event per family.
+	perFamily := 100000
+	if thorough {
+		perFamily = 300000
+	}
+	for _, f := range []struct {
+		text           string
+		chunk, wk, prc int
+	}{
+		{"long", 4096, 16, 4}, {"long", 4096, 3, 3}, {"long", 100, 8, 2}, {"long", 1 << 20, 8, 2}, {"long", 4096, 2, 16},
+		{"small", 7, 8, 2}, {"small", 1, 4, 4},
+	} {
+		text := "a\"b,c\nd,e\nf,g\n"
+		if f.text == "long" {
+			text = "a\"b,c\n" + strings.Repeat("d,e\n", 4000)
+		}
+		o := opts{}
+		if d, ok := mkCase("produce", "writerto", text, o, 0, 0, f.chunk, "stress"); ok {
+			d["tail"] = true
+			d["stress"] = M{"calls": perFamily, "workers": f.wk, "procs": f.prc}
+			c.Case(d)
+		}
+	}
 	// seeded random larger cases
 	nRand := 3000
 	if thorough {
@@ -716,6 +743,10 @@ func execute(c *drv.Ctx, d M) bool {
 		producer = runtime.CSVProducer(codecOpts(o, skip)...)
 	}
 	nontrivial := false
+	if st, ok := d["stress"]; ok {
+		runStress(c, drv.Map(st), trace.Str(d["text"]), o, skip, chunk)
+		return true
+	}
 	if cs, ok := d["calls"]; ok {
 		for i, cv := range drv.List(cs) {
 			m := drv.Map(cv)
@@ -728,6 +759,72 @@ func execute(c *drv.Ctx, d M) bool {
 	cl := call{text: trace.Str(d["text"]), ref: tableFromJSON(d["table"]), bad: drv.Bool(d["bad"])}
 	runCall(c, consumer, producer, kind, cl, o, pre, chunk, 0)
 	return len(cl.ref) > 0 || cl.bad
+}
+
+type discard struct{}
+
+func (discard) Write(p []byte) (int, error) { return len(p), nil }
+
+// runStress repeats Produce(io.Writer, io.WriterTo over text) st.calls times from st.workers goroutines with
+// GOMAXPROCS = st.procs and logs ONE aggregated observation: how many calls returned the parser's error, another
+// error (with the text of the first one), no error.
+func runStress(c *drv.Ctx, st M, text string, o opts, skip, chunk int) {
+	calls, workers, procs := drv.Int(st["calls"]), drv.Int(st["workers"]), drv.Int(st["procs"])
+	old := goruntime.GOMAXPROCS(procs)
+	defer goruntime.GOMAXPROCS(old)
+	var mu sync.Mutex
+	parse, other, none, panics := 0, 0, 0, 0
+	first := ""
+	var wg sync.WaitGroup
+	for g := 0; g < workers; g++ {
+		n := calls / workers
+		if g == 0 {
+			n += calls % workers
+		}
+		wg.Add(1)
+		go func(n int) {
+			defer wg.Done()
+			producer := runtime.CSVProducer(codecOpts(o, skip)...)
+			lp, lo, ln, lpanic := 0, 0, 0, 0
+			lfirst := ""
+			for i := 0; i < n; i++ {
+				func() {
+					defer func() {
+						if r := recover(); r != nil {
+							lpanic++
+						}
+					}()
+					err := producer.Produce(discard{}, &srcWT{text: []byte(text), chunk: chunk})
+					switch errClass(err) {
+					case "none":
+						ln++
+					case "parse":
+						lp++
+					default:
+						lo++
+						if lfirst == "" {
+							lfirst = err.Error()
+						}
+					}
+				}()
+			}
+			mu.Lock()
+			parse, other, none, panics = parse+lp, other+lo, none+ln, panics+lpanic
+			if first == "" {
+				first = lfirst
+			}
+			mu.Unlock()
+		}(n)
+	}
+	wg.Wait()
+	ascii := make([]byte, 0, len(first))
+	for i := 0; i < len(first) && i < 120; i++ {
+		if first[i] >= 0x20 && first[i] < 0x7f && first[i] != '"' && first[i] != '\\' {
+			ascii = append(ascii, first[i])
+		}
+	}
+	c.W.Event("stress", M{"calls": parse + other + none + panics, "parse": parse, "other": other, "none": none,
+		"first_other": string(ascii), "panic": panics > 0})
 }
 
 // runCall performs one call on the real codec and logs what it observably did.
